@@ -26,7 +26,7 @@ ANCHORS = ["model/distreg.py:tau2_gibbs_kernel", "model/goose.py:finite_discrete
 ASSUMPTIONS = ["jax.random.gamma / categorical are trusted samplers",
                "a finite-sample decision: 'held' means no deviation detectable at N=20 000 (KS flags CDF discrepancies >~ 0.018)"]
 WORKERS = 16
-TIMEOUT = {"quick": 1200, "thorough": 3600}
+TIMEOUT = {"quick": 1500, "thorough": 10800}
 
 
 def diff_penalty(m, order):
